@@ -98,7 +98,7 @@ func followerCaughtUp(c *Cli) bool {
 var c06Frozen = freezeAllBut("follow", "Serve#2", "Serve#4")
 
 func checkC06(job *Job, res *Result) {
-	res.Rule = "FAULT: initial follower state {empty, a true prefix of the leader's log, unrelated data (objects + channel), a non-empty log with an empty dataset, a > 512 KiB log that shares its first 600 kB with the leader and then diverges; thorough: the same with logs > 512 KiB so that the checksum search runs} x ALL event sequences of length <= D over {leader write, 300 kB leader write, leader AOFSHRINK to completion, follower clean restart, replication connection kill, follower paused during two leader writes, follower stalled mid-download across a leader write + AOFSHRINK + write, AOFSHRINK on the follower}; settle under virtual time; distinct = distinct (initial state, event sequence, final leader dump)"
+	res.Rule = "FAULT: initial follower state {empty, a true prefix of the leader's log, unrelated data (objects + channel), a non-empty log with an empty dataset, a > 512 KiB log that shares its first 600 kB with the leader and then diverges, a leader log with a command boundary exactly at the first checksum window (524288); thorough: the same with logs > 512 KiB so that the checksum search runs} x ALL event sequences of length <= D over {leader write, 300 kB leader write, leader AOFSHRINK to completion, follower clean restart, replication connection kill, follower paused during two leader writes, follower stalled mid-download across a leader write + AOFSHRINK + write, AOFSHRINK on the follower}; settle under virtual time; distinct = distinct (initial state, event sequence, final leader dump)"
 	res.Assumptions = append(res.Assumptions,
 		"both servers run in one process on the in-memory network; time is virtual (1 s reconnect delay and 250 ms broadcasts cost nothing)",
 		"no TTLs in this part's workload (deadlines are the business of part c06ttl)",
@@ -107,7 +107,7 @@ func checkC06(job *Job, res *Result) {
 	if d, ok := job.Params["depth"].(float64); ok {
 		depth = int(d)
 	}
-	inits := []string{"empty", "prefix", "unrelated", "emptied", "big-empty", "big-diverged"}
+	inits := []string{"empty", "prefix", "unrelated", "emptied", "big-empty", "big-diverged", "aligned"}
 	if job.Tier == "thorough" {
 		inits = append(inits, "big-prefix", "big-unrelated")
 	}
@@ -193,6 +193,26 @@ func checkC06(job *Job, res *Result) {
 					f0.Stop()
 					r.write(true) // the leader moves on too
 					r.write(false)
+				case "aligned":
+					// the leader's log has a command that ends exactly at byte 524288 (the size of
+					// one checksum window) and goes on for 300 kB: a follower that holds a full copy
+					// verifies the first window only when it reconnects
+					r.lc.Do("SET", "ak", "x0", "POINT", "1", "1")
+					vsched.Quiesce()
+					fi, _ := os.Stat(filepath.Join(ldir, "appendonly.aof"))
+					n := 524288 - int(fi.Size()) - 60
+					for try := 0; try < 10; try++ {
+						if d := int(fi.Size()) + len(respCmd("SET", "lk", "pad", "STRING", strings.Repeat("p", n))) - 524288; d == 0 {
+							break
+						} else {
+							n -= d
+						}
+					}
+					r.lc.Do("SET", "lk", "pad", "STRING", strings.Repeat("p", n))
+					// not idempotent when replayed a second time: ak2 would end up holding x instead of x0
+					r.lc.Do("RENAME", "ak", "ak2")
+					r.lc.Do("SET", "ak", "x", "POINT", "2", "2")
+					r.write(true)
 				case "emptied":
 					// a log that is not empty although the dataset is: everything was deleted again
 					f0 := x.Start("F", fdir, 9002, nil)
